@@ -26,6 +26,7 @@ message) is observed on the real session: per-message and whole-queue correspond
 -/
 import SmppVerif.Lemmas.ClassesEnc
 import SmppVerif.Lemmas.SenderLoop
+import SmppVerif.Gen.Site
 
 namespace SmppVerif.Props.C06
 open SmppVerif SmppVerif.Pdu SmppVerif.Sender SmppVerif.Lemmas.Classes SmppVerif.Lemmas.ClassesEnc
@@ -102,6 +103,13 @@ example : iteration encGsm 1 5 { shortMessage := [104], encoding := some ⟨[120
 example : ParamsOK ({ shortMessage := [104, 105], optionalParams := [⟨0x0204, .int 513⟩] } : Sm) := by
   intro t ht; simp at ht; subst ht; decide +kernel
 
+/-- tie to the source (Gen/Site.lean): in `_send_data` the sequence number is drawn and checked before `pdu()` is built, which is
+    built before anything is written — the order Model/SenderLoop.lean assumes -/
+theorem send_data_step_order :
+    Gen.Site.sendData.filter (fun x => x ∈ ["next_sequence", "assert_valid_sequence", "pdu", "write"]) =
+      ["next_sequence", "assert_valid_sequence", "pdu", "write"] := by
+  decide
+
 end SmppVerif.Props.C06
 
 #print axioms SmppVerif.Props.C06.failure_classes
@@ -111,3 +119,4 @@ end SmppVerif.Props.C06
 #print axioms SmppVerif.Props.C06.queue_in_order
 #print axioms SmppVerif.Props.C06.queue_never_stops
 #print axioms SmppVerif.Props.C06.wire_in_queue_order
+#print axioms SmppVerif.Props.C06.send_data_step_order
